@@ -148,6 +148,12 @@ def execute(prop, tier, rules, design_ref, assumptions, not_decided):
     total = sum(r.get("instances", 0) for r in run.results)
     distinct = len({(r["rule"], s["key"]) for r in run.results for s in r.get("samples", [])})
     wall = round(time.time() - run.t0, 2)
+    # thorough tier: re-validate the checker itself against its frozen mutants / benign variants (informational:
+    # recorded in the evidence, never changes the verdict on the tree under analysis)
+    selftest = None
+    if tier == "thorough" and os.environ.get("BGV_REPO") is None and os.environ.get("BGV_NO_SELFTEST") is None:
+        selftest = run_selftest(prop)
+        run.extra["checker_selftest"] = selftest
     for kk, d, l in run.known_hits:
         print("KNOWN-FINDING: property=%s %s %s  [%s] %s" % (prop, kk[1], kk[2], l, d))
     replay_paths = []
@@ -199,6 +205,25 @@ def execute(prop, tier, rules, design_ref, assumptions, not_decided):
             print("TOOL-ERROR: " + t, file=sys.stderr)
         return 2
     return 0
+
+
+def run_selftest(prop):
+    """Apply every frozen mutant / benign variant of this property to a scratch copy of /repo and re-run the quick check."""
+    import subprocess
+    fx = os.path.join(VERIF, "fixtures", "mutants", prop + ".json")
+    if not os.path.exists(fx):
+        return {"fixtures": 0}
+    try:
+        r = subprocess.run([os.path.join(VERIF, "selftest", "mutants.py"), "--prop", prop, "-j", "8"], cwd=VERIF,
+                           stdout=subprocess.PIPE, stderr=subprocess.STDOUT, text=True, timeout=3600)
+    except Exception as e:  # noqa
+        return {"error": str(e)}
+    lines = [l.split() for l in r.stdout.splitlines() if l.startswith(prop + " ")]
+    res = {"fixtures": len(lines),
+           "mutants_caught": sum(1 for l in lines if l[-1] == "ok-caught"),
+           "benign_silent": sum(1 for l in lines if l[-1] == "ok-silent"),
+           "not_as_expected": [" ".join(l[1:]) for l in lines if not l[-1].startswith("ok")]}
+    return res
 
 
 class RuleSet:
